@@ -196,6 +196,10 @@ def judge_freevars(case, ans):
     got_free = [x for x in d.get('free', '').split(',') if x]
     if got_free != want_free:
         return True, 'free_vars %s, expected %s' % (got_free, want_free)
+    want_vars = ['%s:%d' % (case['names'][i], case['ids'][i]) for i in range(k) if occ[i]]
+    got_vars = [x for x in d.get('vars', '').split(',') if x]
+    if got_vars != want_vars:
+        return True, 'vars %s, expected every name of the text once in variable order: %s' % (got_vars, want_vars)
     if 'support' in d and d['support'] != '1':
         return True, 'the evaluated diagram mentions a variable that is not free'
     return False, 'agrees'
